@@ -20,7 +20,7 @@ from mc import core
 
 LEVEL = "model_checking"
 TECHNIQUE = "explicit-state / stateless exploration of the real adaptive loop under a scripted environment (all error profiles, all answer sequences up to a deviation bound, BFS with state hashing), trace invariants + reference-protocol conformance; plus a TLA+ model explored by TLC whose every edge is replayed against the implementation"
-TIMEOUT_S = {"quick": 1500, "thorough": 10800}
+TIMEOUT_S = {"quick": 1800, "thorough": 21600}
 
 VALUES = [1 / 16, 1 / 4, 1.0, 4.0]
 BREAKS = [1 / 4, 1 / 2, 3 / 4]
@@ -101,6 +101,8 @@ def enumerate_cases(tier, seed):
             for clip in (False, True):
                 for dt0 in DT0S:
                     for lay in layouts(EPSS[en], max_layout):
+                        if not quick and en == "eps_default" and len(lay) > 1:
+                            continue  # thorough: the non-dyadic eps on layouts with at most one interior checkpoint (budget)
                         cases.append(dict(id=f"profile/save_at/{cn}/{en}/clip{int(clip)}/dt0_{dt0}/L{''.join(map(str, lay)) or '-'}",
                                           group=f"p/{cn}/{en}/{int(clip)}/{dt0}/{len(lay)}", mode="profile", entry="save_at",
                                           controller=cn, eps=en, clip=clip, dt0=dt0, layout=lay, max_pieces=max_pieces,
